@@ -658,6 +658,16 @@ def _case_run(self, result=None):
         emit('T', ph='ran', id=tid)
 
 
+def _case_debug(self):
+    # the runner's post-mortem mode (-D) runs tests through debug() instead of run()
+    tid = self.id()
+    emit('T', ph='run', id=tid, via='debug')
+    try:
+        return unittest.TestCase.debug(self)
+    finally:
+        emit('T', ph='ran', id=tid, via='debug')
+
+
 def _safe_str(obj):
     try:
         return str(obj)
@@ -707,7 +717,7 @@ def _make_body(t):
 def build_case(node, modname, layers):
     tests = {t['n']: t for t in node['tests']}
     ns = {'__module__': modname, '_ztv_tests': tests, 'setUp': _case_setUp, 'tearDown': _case_tearDown,
-          'run': _case_run}
+          'run': _case_run, 'debug': _case_debug}
     for t in node['tests']:
         ns[t['n']] = _make_body(t)
     if any('str' in t for t in node['tests']):
